@@ -10,6 +10,7 @@ void print_bytes(const char* key, const unsigned char* b, size_t n);
 void print_u64s(const char* key, const uint64_t* a, size_t n);
 void print_shex(int64_t v);
 void harness_init(void);
+void prime_stack(void);   /* SZV_STACK_PRIME: fill the stack below the caller with a chosen word (call right before entering the library) */
 /* result lines go to R (the original stdout); fd 1 is redirected to stderr at start-up so that
    messages printed by the library cannot corrupt the one-line-per-case protocol */
 #include <stdio.h>
